@@ -62,8 +62,9 @@ class Contract:
     def __init__(self, target, params=None, requires=(), ensures=(), exc_ensures=(), raises=None,
                  ret=None, may_raise=(), modifies=(), loops=None, props=(), assumed=False, replay=None,
                  inline=False, uf=False, cm_contract=None, kind="function", note="", witnesses=(),
-                 reads_heap=False, unroll_while=0, self_type=None, verify=True, inline_callees=False, cm_body=None, local_types=None, ghost_init=None, custom=None, opaque_externals=False, fresh_result=False, definitions=(), fid=None, track_alloc=False):
+                 reads_heap=False, unroll_while=0, self_type=None, verify=True, inline_callees=False, cm_body=None, local_types=None, ghost_init=None, custom=None, opaque_externals=False, fresh_result=False, definitions=(), fid=None, track_alloc=False, deep_feasibility=False):
         self.track_alloc = track_alloc
+        self.deep_feasibility = deep_feasibility
         self.target = target
         self.module, self.qual = target.split(":")
         self.params = params  # dict name -> Ty (None => from annotations)
